@@ -16,7 +16,12 @@ for d in sorted(glob.glob("/verif/seeded/C*-*")):
         rows.append((sid, m.get("property"), m.get("detected_by", []), m.get("summary", "")))
         continue
     meta = json.load(open(d + "/meta.json"))
-    rc, out = sh(f"git -C /repo apply {d}/patch.diff")
+    patch = d + "/patch.diff"
+    if os.path.exists(d + "/patch_rebased.diff"):
+        # the lines the agent's change edits were later repaired by a fix: commit; this is the same change on the repaired tree
+        patch = d + "/patch_rebased.diff"
+        meta["rebased"] = "patch.diff no longer applies since a fix: commit touched the same lines; patch_rebased.diff is the same change carried over to the repaired tree (confirmed again: builds, existing tests pass, demo fails with / passes without)"
+    rc, out = sh(f"git -C /repo apply {patch}")
     if rc:
         print(sid, "patch does not apply:", out); continue
     try:
